@@ -548,6 +548,12 @@ class LazyList(collections_abc.Sequence, Copyable):
     def __len__(self):
         return len(self._callables)
 
+    def __iter__(self):
+        # evaluate element by element; the default Sequence.__iter__ would take
+        # an IndexError raised by an element's own callable for the end
+        for c in self._callables:
+            yield c()
+
     @classmethod
     def init_from_iterable(cls, iterable, f=None):
         r"""
